@@ -56,7 +56,7 @@ def check_props(pid):
     res["obligations"] = len(thms)
     res["checker_cmd"] = (f"cd /verif && ./coqmake {vfile}o && cd coq && coqc -Q . V {vfile}"
                           "   (Coq 8.16.1, full .vo build of the property file and everything it depends on)")
-    ok, log = build.coq_make([vfile + "o"])
+    ok, log = build.coq_make([vfile + "o", f"Dispatch/D{pid}.vo"])
     res["log"] = log[-4000:]
     deps = build.vo_deps(vfile)
     res["files"] = deps
